@@ -37,7 +37,7 @@ ColSets == IF Partial THEN (SUBSET Cols) \ {{}} ELSE {Cols}
 (* statement assigns to column c is the token <<c, wt>> (concretised by    *)
 (* the harness), so a fact determines its values.                          *)
 Fact(kind, key, cs, wt) == [kind |-> kind, key |-> key, cs |-> cs, wt |-> wt]
-AsStmt(f) == [kind |-> f.kind, key |-> f.key, wt |-> f.wt,
+AsStmt(f) == [kind |-> f.kind, key |-> f.key, wt |-> f.wt, n |-> 0,
               cols |-> [c \in (IF f.kind = "ins" THEN Cols ELSE f.cs) |->
                           IF c \in f.cs THEN c \o ToString(f.wt) ELSE R!NullV]]
 Stmts(F) == {AsStmt(f) : f \in F}
